@@ -192,6 +192,20 @@ func knownBits(t *Term) (kz, ko uint64) {
 			tz = w
 		}
 		kz := mask(tz)
+		ko := uint64(0)
+		if t.Op == OBvAdd {
+			// low bits known in both operands: the low bits of the sum are known
+			ka, kb := a(0).KZ|a(0).KO, a(1).KZ|a(1).KO
+			k := bits.TrailingZeros64(^(ka & kb))
+			if k > w {
+				k = w
+			}
+			if k > 0 {
+				sum := (a(0).KO + a(1).KO) & mask(k)
+				ko |= sum
+				kz |= ^sum & mask(k)
+			}
+		}
 		if t.Op == OBvAdd {
 			// leading known zeros: x < 2^(w-la), y < 2^(w-lb) => x+y < 2^(w-min(la,lb)+1), no wrap
 			lead := func(z uint64) int { return bits.LeadingZeros64((^z&mask(w))<<uint(64-w) | (uint64(1)<<uint(64-w) - 1)) }
@@ -206,7 +220,7 @@ func knownBits(t *Term) (kz, ko uint64) {
 				kz |= mask(w) &^ mask(w-(la-1))
 			}
 		}
-		return kz, 0
+		return kz, ko
 	case OBvMul:
 		tz := bits.TrailingZeros64(^a(0).KZ) + bits.TrailingZeros64(^a(1).KZ)
 		if tz > w {
